@@ -22,6 +22,8 @@ SCodecs == {"supported", "unsupported", "mixed", "subset", "renumbered", "renumb
 Pre     == {"none", "audio-sendrecv-track", "video-recvonly", "audio+video-tracks", "two-video",
             "video-prefs-vp9rtx", "video-prefs-vp8rtx-h264", "video-prefs-rtxfirst",
             "video-prefs-nopt", "audio-prefs-nopt"}     \* "-nopt": preferences given as capabilities, without payload types
+\* "reoffer-*": the same offer again with every media direction replaced; the driver answers every other one
+\* provisionally first (pranswer applied, then the final answer created in have-local-pranswer)
 Post    == {"none", "dc+offer", "reoffer-sendonly", "reoffer-recvonly", "reoffer-inactive", "track+offer"}
 Place   == {"media", "session"}
 
